@@ -1,3 +1,6 @@
+import FrappyDrive.C01
 import FrappyDrive.C19
 import FrappyDrive.C20
+import FrappyDrive.DTypes
+import FrappyDrive.FloatInst
 import FrappyDrive.Util
